@@ -66,6 +66,12 @@ RULE = ('cases: (sec_plain/sec_nobits/sec_comp) sizes {0,1,63,64,65,127,128,129,
         'above p_filesz, 2^n-1) of every seg_data/interp case (model = the Segment object built from the header in the '
         'image), sh_link/sh_info/sh_entsize of every section case. One string table per run holds strings of 65535, '
         '65536, 65537 and 70000 bytes (listed lookups: starts, interiors, chunk-boundary distances from the terminator). '
+        'Entry points are drawn: the section of every section/strtab case is reached through get_section(n), '
+        'iter_sections() (abandoned or listed), iter_sections(type), get_section_by_name, get_section_index, over '
+        'section header tables whose e_shentsize exceeds the structure by a drawn amount (model: header read at '
+        'e_shoff + n*e_shentsize). (addr_big) one table per run with 65540 program headers (e_phnum = PN_XNUM, count '
+        'in section 0 sh_info; given as runs, spec answers computed from the runs, model not run) with PT_LOADs at '
+        'indices 65534/65535/65536 and last, looked up by address_offsets generators and iter_segments(PT_LOAD). '
         'distinct = hash(kind, abstract); '
         'non-trivial = size>0 data, table with a string >= 63 bytes, any addr/sis pair')
 
